@@ -178,6 +178,11 @@ def multichain_policy_iteration_vectorized(
         ) 
         gain_bias = coeff_block.T@gram_solution
         gain, bias = gain_bias[:n_states], gain_bias[n_states:]
+        if discount_rate < 1.0:
+            # discounted: the gain is 0 and the bias is the discounted value, the unique
+            # solution of a non-singular system (the rank test above is unreliable here)
+            gain = np.zeros(n_states)
+            bias = np.linalg.solve(eye - mp, s_rf)
 
         # Policy improvement based on *gain*
         # Note: We always break max ties on the side of the previous policy
